@@ -73,7 +73,7 @@ pub open spec fn MAX_TOPIC() -> int { 0x7fff_ffff_ffff_ff00 }
 //@@ prologue
     broadcast use lemma_be16_len, ax_try_into_spec16;
     proof { ax_obeys_into16(); }
-//@@ after: let frame_id_bytes = &key[key.len() - 16..];
+//@@ before_stmt: Scru128Id::from_bytes(
     proof { assert(frame_id_bytes@.len() == 16); assert(frame_id_bytes@ == key@.subrange(key@.len() - 16, key@.len() as int)); }
 //@@ end
 
@@ -100,8 +100,8 @@ pub open spec fn ctx_bounds_post(ctx: u128, last: Option<u128>, r: (Bound<Vec<u8
 pub open spec fn opt_id(o: Option<&Scru128Id>) -> Option<u128> { match o { Some(l) => Some(id_u128(*l)), None => None } }
 
 //@@ slice file=src/store/mod.rs fn=iter_frames impl=Store name=iter_frames_ctx_bounds
-//@@ from: let start_key = if let Some(last_id) = last_id {
-//@@ through: let end_key = Bound::Excluded(idx_context_key_range_end(ctx_id));
+//@@ from: let start_key =
+//@@ through_stmt: let end_key =
 //@@ header
 fn iter_frames_ctx_bounds(ctx_id: Scru128Id, last_id: Option<&Scru128Id>) -> (r: (Bound<Vec<u8>>, Bound<Vec<u8>>))
     ensures ctx_bounds_post(id_u128(ctx_id), opt_id(last_id), r), //# keys.iter_ctx.bounds
@@ -121,8 +121,8 @@ pub open spec fn all_bounds_post(last: Option<u128>, r: (Bound<Vec<u8>>, Bound<V
 }
 
 //@@ slice file=src/store/mod.rs fn=iter_frames impl=Store name=iter_frames_all_bounds
-//@@ from: let range = match last_id {
-//@@ through: None => (Bound::Unbounded, Bound::Unbounded), };
+//@@ from: let range =
+//@@ through_stmt:
 //@@ header
 fn iter_frames_all_bounds(last_id: Option<&Scru128Id>) -> (r: (Bound<Vec<u8>>, Bound<Vec<u8>>))
     ensures all_bounds_post(opt_id(last_id), r), //# keys.iter_all.bounds
@@ -133,8 +133,8 @@ fn iter_frames_all_bounds(last_id: Option<&Scru128Id>) -> (r: (Bound<Vec<u8>>, B
 //@@ end
 
 //@@ slice file=src/store/mod.rs fn=iter_frames impl=Store name=iter_frames_ctx_decode
-//@@ from: let frame_id_bytes = &key[16..];
-//@@ through: let frame_id = Scru128Id::from_bytes(frame_id_bytes.try_into().ok()?);
+//@@ from: let frame_id_bytes =
+//@@ through_stmt: let frame_id =
 //@@ header
 fn iter_frames_ctx_decode(key: &[u8]) -> (r: Option<Scru128Id>)
     requires key@.len() >= 16,
@@ -143,7 +143,7 @@ fn iter_frames_ctx_decode(key: &[u8]) -> (r: Option<Scru128Id>)
 {
     broadcast use lemma_be16_len, ax_try_into_spec16;
     proof { ax_obeys_into16(); }
-//@@ after: let frame_id_bytes = &key[16..];
+//@@ before_stmt: let frame_id =
     proof { assert(frame_id_bytes@ == key@.subrange(16, key@.len() as int)); }
 //@@ epilogue
     Some(frame_id)
